@@ -57,16 +57,22 @@ def _on_alarm(signum, frame):
 
 
 signal.signal(signal.SIGALRM, _on_alarm)
+signal.signal(signal.SIGVTALRM, _on_alarm)
 CALL_BUDGET = float(os.environ.get("VERIF_CALL_BUDGET", "5"))
 CONFIRM_BUDGET = float(os.environ.get("VERIF_CONFIRM_BUDGET", "40"))
 
 
 def guarded(fn, *a, budget=None, **kw):
-    """run one library call under the hang watchdog"""
-    signal.setitimer(signal.ITIMER_REAL, budget or CALL_BUDGET)
+    """run one library call under the hang watchdog.  The budget is CPU time
+    of this process (so that a loaded machine does not turn slow calls into
+    hangs); a wall-clock backstop of five times the budget stands behind it."""
+    b = budget or CALL_BUDGET
+    signal.setitimer(signal.ITIMER_VIRTUAL, b)
+    signal.setitimer(signal.ITIMER_REAL, 5 * b)
     try:
         return fn(*a, **kw)
     finally:
+        signal.setitimer(signal.ITIMER_VIRTUAL, 0)
         signal.setitimer(signal.ITIMER_REAL, 0)
 
 
